@@ -434,7 +434,9 @@ func sharedMetaTemplate() map[string]string {
 
 func (g *e1gen) errSpec(idx int) ErrSpec {
 	var e ErrSpec
-	switch g.weighted(4, 1, 1, 1) {
+	switch g.weighted(4, 1, 1, 1, 1) {
+	case 4:
+		e.Msg = fmt.Sprintf("100%% of rpc %d done: %%s %%d %%!v(MISSING) %%%%", idx) // literal percent signs
 	case 0:
 		e.Msg = fmt.Sprintf("handler error of rpc %d", idx)
 	case 1:
@@ -457,6 +459,10 @@ func (g *e1gen) errSpec(idx int) ErrSpec {
 	e.Style = g.pick(4)
 	if e.Style == 3 {
 		e.Msg = fmt.Sprintf("backend of rpc %d lost: EOF", idx)
+	}
+	if g.chance(0.05) {
+		// an error whose Unwrap chain is a cycle: no code can be found in it
+		return ErrSpec{Msg: fmt.Sprintf("cyclic handler error of rpc %d", idx), Code: 0, Style: 6}
 	}
 	if g.chance(0.12) {
 		// the application's shared, coded sentinel error: returned as it is (style
@@ -659,7 +665,20 @@ func (g *e1gen) rpc(idx int) *RPCSpec {
 	if g.chance(m.MetaP) {
 		r.HasMeta = true
 		r.Meta = g.meta(idx)
-		switch r.MetaStyle = g.weighted(5, 3, 1); r.MetaStyle {
+		switch r.MetaStyle = g.weighted(5, 3, 1, 2); r.MetaStyle {
+		case 3:
+			// per task, each call derives its context from the previous call's
+			// context and adds at most two pairs (drpcmetadata.Add writes into the
+			// map the context already carries); what the handler must see is the
+			// union so far, filled in by genE1 once the task assignment is known
+			r.MetaExtras = map[string]string{}
+			n := 0
+			for k, v := range r.Meta {
+				if n < 2 && len(k) < 64 && len(v) < 64 {
+					r.MetaExtras[k] = v
+					n++
+				}
+			}
 		case 1:
 			// the shared map plus at most two per-call pairs
 			r.MetaExtras = map[string]string{}
@@ -780,6 +799,22 @@ func genE1(ch *Choices, mode E1Mode) *E1Prog {
 			r.Task = g.pick(p.NTasks)
 		}
 		p.RPCs = append(p.RPCs, r)
+	}
+	// cumulative metadata of derived contexts (style 3), per task in program order
+	cum := map[int]map[string]string{}
+	for _, r := range p.RPCs {
+		if r.HasMeta && r.MetaStyle == 3 {
+			if cum[r.Task] == nil {
+				cum[r.Task] = map[string]string{}
+			}
+			for k, v := range r.MetaExtras {
+				cum[r.Task][k] = v
+			}
+			r.Meta = map[string]string{}
+			for k, v := range cum[r.Task] {
+				r.Meta[k] = v
+			}
+		}
 	}
 	g.st = "faults"
 	if g.chance(mode.StallP) {
